@@ -34,7 +34,19 @@ PROPS["C16"] = {
     "partial": "projection (library)",
 }
 
+PROPS["C11"] = {
+    "gen": ["Samplers"],
+    "trusted_base": ["IEEE double evaluation of the same expressions agrees with exact evaluation at points strictly inside a cell (harness discards points within 1e-7 px of a boundary)", "astropy ICRS->Galactic rotation (library)"],
+    "assumptions": COMMON_ASSUME + ["plate_carree_ecliptic_sampler is outside the stated layouts and is not checked"],
+    "partial": "Galactic rotation (library)",
+}
+
 LEVEL_TEXT = {
+    "C11": {
+        "text": "The index computations of the five sampler variants are translated from samplers.py on every run into exact rational Lean functions (angles in turns). Theorems, for all map shapes >=1x1, all rational longitudes and latitudes in [-1/4,1/4] turn: the returned (iy, ix) is in range and its closed cell contains the point's position under the documented layout of the variant; the result is 1-periodic in longitude; strictly inside a cell the answer is unique; the Galactic variant indexes like the sky variant. The real samplers are run on exact rational points strictly inside cells and compared with the model and with an independent floor-based oracle.",
+        "note": "trusted: Lean kernel; the expression translator (np.pi -> 1/2 turn etc.: a change of units because every expression is homogeneous in the angle unit); double rounding away from boundaries; astropy's rotation.",
+        "technique": "Lean 4 proof over source-translated rational functions + exact-point differential execution",
+    },
     "C16": {
         "text": "The header assignments of _flip_wcs_parity and _wcs_to_parity_sign are symbolically executed from image.py on every run into exact rational Lean definitions; theorems (all CD, CRPIX, heights, pixels): world(x,y) before = world(x,H-1-y) after, det negates, parity sign negates, rows reversed, ensure_negative_parity yields -1 and is idempotent, for images and data-less descriptions. Real Image (array- and PIL-backed) and ImageDescription objects with dyadic WCS are compared header-for-header with the model and checked on the sky through astropy.",
         "note": "trusted: Lean kernel; the symbolic executor for the header fragment; astropy's WCS parsing and projection.",
